@@ -12,7 +12,8 @@ EXPLANATION = ("Static structural rules over simulator.py, events/*.py, charging
                "progress structure of the run() loop body (pop at exactly the current period, process every popped event, "
                "events before scheduler before pilots before recording, single +1 increment on every path, loop condition = "
                "queue non-empty). Decided from CFG dominance, must-pass-through reachability, reaching definitions and "
-               "linear forms; no code is executed.")
+               "linear forms; no code is executed."
+               ' Added in round 3: decision tables of ChargingNetwork.plugin / unplug (the EVSE-level transition happens exactly once on the path on which it is due, never under a contradicted membership test), index domains of the plug/unplug path, growth of the history arrays to the current period on every path of the loop body (also in periods without events), every event handed to the queue is pushed (constructor, add_events) and `empty()` means the heap array is empty; generic well-formedness of every analysed function (no read of an undefined local, no dropped return).')
 NOT_DECIDED = "that a particular input has no overlapping sessions; numeric content of the recorded matrices"
 
 EVENT_CLASSES = ("UnplugEvent", "PluginEvent", "RecomputeEvent")
